@@ -1314,6 +1314,12 @@ func (x *Exec) atSite(fr *Frame, st *State, kind string, ord int, vals map[strin
 		case "set":
 			parts := strings.SplitN(at.Clause.Text, "=", 2)
 			g := strings.TrimSpace(parts[0])
+			if key, obj, esrt, isField := x.ghostFieldLval(fr, ctx, g); isField {
+				// ghost field of one object: G|name[obj] := value
+				t, _ := ctx.evalText(strings.TrimSpace(parts[1]))
+				st.heap[key] = fmt.Sprintf("(store %s %s %s)", x.vc.heapGet(st, key), obj, x.vc.define("gset", esrt, t))
+				break
+			}
 			srt, ok := fr.ghostLoc[g]
 			if !ok {
 				x.eng.fatalf("%s: set of undeclared ghost variable %s", at.Clause.Src, g)
@@ -1341,6 +1347,23 @@ func (x *Exec) atSite(fr *Frame, st *State, kind string, ord int, vals map[strin
 			x.eng.fatalf("%s: unknown at-kind %q", at.Clause.Src, at.Kind)
 		}
 	}
+}
+
+// ghostFieldLval resolves `name(expr)` where name is a ghost field of the unit's package.
+func (x *Exec) ghostFieldLval(fr *Frame, ctx *EvalCtx, g string) (key, obj, esrt string, ok bool) {
+	i := strings.Index(g, "(")
+	if i <= 0 || !strings.HasSuffix(g, ")") {
+		return
+	}
+	gf, srt, found := x.eng.gfieldLookup(fnPkgPath(fr.fn), strings.TrimSpace(g[:i]))
+	if !found {
+		return
+	}
+	key = x.vc.ghostHeapKey(gf.Name, x.eng.ghostArrSort(x.vc, gf.Name))
+	if ctx != nil {
+		obj, _ = ctx.evalText(g[i+1 : len(g)-1])
+	}
+	return key, obj, srt, true
 }
 
 func (fr *Frame) atUsed() map[int]bool {
